@@ -20,6 +20,9 @@ type c14Template struct {
 	twoSel    bool
 	expectErr bool // the query itself is invalid/unsupported: evaluation must fail
 	limitable bool
+	// eitherWay: whether the query is accepted is not settled (e.g. a matching
+	// modifier on a scalar operation); only panics, hangs and reader accounting are judged.
+	eitherWay bool
 	// undetermined: LogQL leaves the answer open (ties, float summation order), so
 	// the result is not compared with the twin's; errors and closes still are.
 	undetermined bool
@@ -53,6 +56,18 @@ var c14Templates = []c14Template{
 		return "sum by (container) (count_over_time(" + a + "[" + r + "])) + sum by (container) (count_over_time(" + b + "[" + r + "]))"
 	}},
 	{name: "count_offset", metric: true, build: func(a, _, r string) string { return "count_over_time(" + a + "[" + r + "] offset 5s)" }},
+	{name: "lit_on", metric: true, eitherWay: true, build: func(a, _, r string) string {
+		return "count_over_time(" + a + "[" + r + "]) * on (container) 2"
+	}},
+	{name: "lit_ignoring", metric: true, eitherWay: true, build: func(a, _, r string) string {
+		return "2 < bool ignoring (msg) sum by (container) (count_over_time(" + a + "[" + r + "]))"
+	}},
+	{name: "nested_parens", metric: true, build: func(a, _, r string) string {
+		return "((sum by (container) ((count_over_time(" + a + "[" + r + "])))) + 2)"
+	}},
+	{name: "vector_plus", metric: true, build: func(a, _, r string) string {
+		return "sum by (container) (count_over_time(" + a + "[" + r + "])) + vector(1)"
+	}},
 	{name: "sum_unwrap", metric: true, build: func(a, _, r string) string { return "sum_over_time(" + a + " | unwrap weight [" + r + "])" }},
 	{name: "avg_unwrap_by", metric: true, build: func(a, _, r string) string {
 		return "avg_over_time(" + a + " | unwrap weight [" + r + "]) by (container)"
@@ -253,6 +268,9 @@ func (propC14) Gen(r *Rng, run uint64, tier string) *Plan {
 	if tpl.undetermined {
 		p.Tags["undetermined"] = "1"
 	}
+	if tpl.eitherWay {
+		p.Tags["either_way"] = "1"
+	}
 	p.Params = Params{Start: start, End: end, StepNs: step, Limit: -1}
 	if tpl.metric {
 		if r.Bool(0.25) {
@@ -273,6 +291,12 @@ func (propC14) Gen(r *Rng, run uint64, tier string) *Plan {
 			p.Params.LookbackNs = -(end - (start - rng) + sec)
 			p.Tags["instant"] = "1"
 		}
+	}
+	if r.Bool(0.04) && p.Tags["instant"] != "1" {
+		// an inverted range (start after end): nothing to evaluate, but whatever was opened must be closed
+		p.Params.Start, p.Params.End = p.Params.End, p.Params.Start
+		p.Tags["either_way"] = "1"
+		p.Tags["inverted_range"] = "1"
 	}
 	if !tpl.metric && p.Tags["instant"] != "1" && r.Bool(0.25) {
 		// Command level: the real cobra command; a failure must come back from
@@ -435,7 +459,7 @@ func (propC14) Expand(t *testing.T, p *Plan) []*Plan {
 	twin := c14Twin(p, false, nil)
 	twin.Config = "faultfree"
 	baseTags := func() map[string]string {
-		return map[string]string{"template": p.Tags["template"], "expect_error": p.Tags["expect_error"], "instant": p.Tags["instant"], "undetermined": p.Tags["undetermined"],
+		return map[string]string{"template": p.Tags["template"], "expect_error": p.Tags["expect_error"], "instant": p.Tags["instant"], "undetermined": p.Tags["undetermined"], "either_way": p.Tags["either_way"],
 			"selA": p.Tags["selA"], "selB": p.Tags["selB"], "range": p.Tags["range"]}
 	}
 	twin.Tags = baseTags()
@@ -711,6 +735,11 @@ func (propC14) Check(t *testing.T, p *Plan, st *Stats) *Violation {
 		return Layout{}, false
 	}
 	switch {
+	case p.Tags["either_way"] == "1":
+		// acceptance is not judged; accounting below is
+		if st != nil {
+			st.Probe("acceptance_not_judged")
+		}
 	case o.Failed:
 		// An error needs a reason: a failure that was delivered to the code, or an invalid query.
 		if len(observed) == 0 && !expectErr {
